@@ -425,6 +425,18 @@ class Summarizer:
             return [(env, conds)]
         if isinstance(st, ast.With):
             return self._block(st.body, [(env, conds)], done, depth, func)
+        if isinstance(st, ast.Try) and not getattr(st, "finalbody", None) and not st.orelse and len(st.handlers) == 1 and len(st.body) == 1 \
+                and isinstance(st.handlers[0].type, ast.Name) and st.handlers[0].type.id == "KeyError" and st.handlers[0].name is None \
+                and isinstance(st.body[0], (ast.Assign, ast.Return)) and isinstance(st.body[0].value, ast.Subscript) \
+                and isinstance(st.body[0].value.value, ast.Name) and st.body[0].value.value.id.isupper() and not isinstance(st.body[0].value.slice, ast.Slice) \
+                and not any(isinstance(x, (ast.Call, ast.Subscript)) for x in ast.walk(st.body[0].value.slice)):
+            # ``try: x = TABLE[k]  except KeyError: <else>`` is ``if k in TABLE: x = TABLE[k]  else: <else>`` (the lookup in a
+            # module-level table is the only thing in the body that can raise KeyError; the key is a plain value)
+            sub_ = st.body[0].value
+            test_ = ast.Compare(left=copy.deepcopy(sub_.slice), ops=[ast.In()], comparators=[copy.deepcopy(sub_.value)])
+            as_if = ast.copy_location(ast.If(test=test_, body=list(st.body), orelse=list(st.handlers[0].body)), st)
+            ast.fix_missing_locations(as_if)
+            return self._stmt(as_if, env, conds, done, depth, func)
         if isinstance(st, ast.Try) and not getattr(st, "finalbody", None):
             # the body completes (atom ``__exc<line>__`` false), or a handler runs from the state before the ``try`` with the
             # names the body assigns unknown (the point of failure is not known); handlers that fall through rejoin after it
